@@ -483,7 +483,9 @@ struct Machine {
 				auto const* before = slot[b]->data_elements(); long nb = model[b].n();
 				long ops0 = obs().copies_and_moves() + obs().ctor_default + obs().ctor_value;
 				if(moved_from[a]) { nt = true; }
+				unknown[a] = unknown[b] = true;  // after a failure both keep some valid, unspecified value
 				*slot[a] = std::move(*slot[b]);
+				unknown[a] = unknown[b] = false;
 				long ops1 = obs().copies_and_moves() + obs().ctor_default + obs().ctor_value;
 				if(equal_allocs || pocma) {
 					VP_CHECK(ops1 == ops0, "value/move_copies", "move assignment performed " << (ops1 - ops0) << " element constructions/assignments");
